@@ -348,6 +348,10 @@ var boundaryTemplates = []struct {
 	// the entries visited are the entries the map has when the loop starts: the body runs once per such entry, whatever it inserts
 	{"for round = 0; round < 10; round++ {\nm = {\"a\": 1, \"b\": 2, \"c\": 3, \"d\": 4}\nn = 0\nfor k, v in m {\nn++\nm[k + \"x\"] = v\nm[k + \"y\"] = v\n}\nprobe([n, len(m)])\n}",
 		[]string{"(l (i 4) (i 12))", "(l (i 4) (i 12))", "(l (i 4) (i 12))", "(l (i 4) (i 12))", "(l (i 4) (i 12))", "(l (i 4) (i 12))", "(l (i 4) (i 12))", "(l (i 4) (i 12))", "(l (i 4) (i 12))", "(l (i 4) (i 12))"}, ""},
+	// an entry deleted before its turn is not visited; every entry still in the map is (20 rounds: the order is Go's)
+	{"bad = 0\nfor round = 0; round < 20; round++ {\nm = {\"a\": 1, \"b\": 2, \"c\": 3, \"d\": 4, \"e\": 5, \"f\": 6}\nn = 0\nsum = 0\ngone = 0\nfor k, v in m {\nn++\nsum += v\nif n == 1 {\nvictim = \"a\"\nif k == \"a\" {\nvictim = \"b\"\n}\ngone = m[victim]\ndelete(m, victim)\n}\n}\nif n != 5 || sum != 21 - gone {\nbad++\n}\n}\nprobe(bad)", []string{"(i 0)"}, ""},
+	// for cond { }: the condition is tested again after continue
+	{"i = 0\nfor i < 3 {\ni++\nprobe(i)\nif i == 3 {\ncontinue\n}\n}\nprobe(100 + i)", []string{"(i 1)", "(i 2)", "(i 3)", "(i 103)"}, ""},
 	// a map loop inside the body of another map loop: each visits every entry of its own map once
 	{"outer = {\"a\": 1, \"b\": 2, \"c\": 3, \"d\": 4}\ninner = {\"x\": 1, \"y\": 2, \"z\": 3}\nno = 0\nnp = 0\nfor k, v in outer {\nno++\nfor k2, v2 in inner {\nnp++\n}\n}\nprobe([no, np])", []string{"(l (i 4) (i 12))"}, ""},
 	{"grid = {\"r1\": {\"a\": 1, \"b\": 2}, \"r2\": {\"a\": 3, \"b\": 4}, \"r3\": {\"a\": 5, \"b\": 6}}\nrows = 0\ncells = 0\nsum = 0\nfor rk, row in grid {\nrows++\nfor ck, cell in row {\ncells++\nsum += cell\n}\n}\nprobe([rows, cells, sum])", []string{"(l (i 3) (i 6) (i 21))"}, ""},
